@@ -114,6 +114,36 @@ impl<Ev: 'static> CTiny<Ev> {
             }
         });
     }
+
+    /// A task that builds the request future (a drop-token inside the operation), does not
+    /// await it - "cache hit" - emits its event and ends. Nothing reaches the shell.
+    pub fn ask_unpolled<F>(&self, callback: F)
+    where
+        F: FnOnce() -> Ev + Send + 'static,
+    {
+        self.context.spawn({
+            let context = self.context.clone();
+            async move {
+                let _never_awaited = context.request_from_shell(COp::Ask(Token::new()));
+                context.update_app(callback());
+            }
+        });
+    }
+
+    /// A race the request loses before its first poll: `select` polls the ready branch first.
+    pub fn select_unpolled<F>(&self, callback: F)
+    where
+        F: FnOnce() -> Ev + Send + 'static,
+    {
+        self.context.spawn({
+            let context = self.context.clone();
+            async move {
+                let request = context.request_from_shell(COp::Ask(Token::new()));
+                let _ = futures::future::select(futures::future::ready(()), request).await;
+                context.update_app(callback());
+            }
+        });
+    }
 }
 
 // ---------------------------------------------------------------------------------------------
@@ -151,6 +181,13 @@ pub enum CEvent {
     /// legacy timer (bridge host only)
     LTimerSet,
     LTimerClear,
+    /// legacy: a request future built and never polled (hosts with capabilities)
+    LReqUnpolled(Token),
+    /// legacy: select(ready, request) - the request is never polled
+    LSelUnpolled(Token),
+    /// legacy notify_after + clear(id) inside one update: the timer future returns Cleared
+    /// without ever polling its request
+    LTimerSetCleared,
     #[serde(skip)]
     Got(COut, Token),
     #[serde(skip)]
@@ -357,6 +394,29 @@ impl crux_core::App for CApp {
             Err(CEvent::Render) => {
                 sat_inc(&mut model.renders);
                 caps.render.render();
+                Command::done()
+            }
+            Err(CEvent::LReqUnpolled(tok)) => {
+                caps.ctiny.ask_unpolled(move || CEvent::Joined(tok));
+                Command::done()
+            }
+            Err(CEvent::LSelUnpolled(tok)) => {
+                caps.ctiny.select_unpolled(move || CEvent::Joined(tok));
+                Command::done()
+            }
+            Err(CEvent::LTimerSetCleared) => {
+                // the Time capability is mapped through a closure of ours that owns a token:
+                // whatever keeps a clone of that capability context alive keeps the token alive
+                let ctx_tok = Token::new();
+                let time = crux_core::Capability::map_event(&caps.time, move |e: CEvent| {
+                    let _owned = &ctx_tok;
+                    e
+                });
+                let tok = Token::new();
+                let id = time
+                    .notify_after(Duration::from_millis(200), move |r| CEvent::LTimerDone(r, tok));
+                time.clear(id);
+                model.ltimer = None;
                 Command::done()
             }
             Err(CEvent::LTimerSet) => {
